@@ -110,6 +110,22 @@ func (v *VM) Eval(sys fs.FS, src string, budget int64, opts ...goatlang.RunOptio
 	return r
 }
 
+// EvalNilFS evaluates src passing a nil fs.FS, as the repository's own tests do for sources without script imports.
+func (v *VM) EvalNilFS(src string, budget int64, opts ...goatlang.RunOption) Result {
+	n := v.Out.Len()
+	r := guard(budget, func() ([]goatlang.Value, error) { return v.VM.Eval(nil, "eval.go", src, opts...) })
+	r.Stdout = v.Out.String()[n:]
+	return r
+}
+
+// LoadNilFS loads arg passing a nil fs.FS.
+func (v *VM) LoadNilFS(arg string, budget int64, opts ...goatlang.RunOption) Result {
+	n := v.Out.Len()
+	r := guard(budget, func() ([]goatlang.Value, error) { return nil, v.VM.Load(nil, arg, opts...) })
+	r.Stdout = v.Out.String()[n:]
+	return r
+}
+
 // Load loads a package or file.
 func (v *VM) Load(sys fs.FS, arg string, budget int64, opts ...goatlang.RunOption) Result {
 	n := v.Out.Len()
